@@ -10,6 +10,7 @@ FD = LANG + "FormattingData"
 RS = LANG + "ReconstructionSettings"
 OLF = "pasfmt_core::rules::optimising_line_formatter::"
 OLF_FMT = "<pasfmt_core::rules::optimising_line_formatter::OptimisingLineFormatter as pasfmt_core::traits::LogicalLineFileFormatter>::format"
+ZERO_FN = "pasfmt_core::rules::optimising_line_formatter::OptimisingLineFormatter::remove_spaces_at_line_starts"
 RECON = "<pasfmt_core::defaults::reconstructor::DelphiLogicalLinesReconstructor as pasfmt_core::traits::LogicalLinesReconstructor>::reconstruct"
 RCL = RECON + "::{closure#0}"
 TS = "pasfmt_core::rules::token_spacing::"
@@ -70,7 +71,7 @@ def check_c06(prog, rep, tier, cfg):
         inventory(rep, R, "readers of %s.ws_len" % short(adt), r, TOKEN_IMPLS + ["<pasfmt_core::lang::Token as core::convert::From>::from"], "only the accessor impls split text into whitespace/content")
     nl = readers(prog, FD, "newlines_before")
     inventory(rep, R, "readers of FormattingData.newlines_before", nl,
-              [OLF + "InternalOptimisingLineFormatter::reconstruct_solution", OLF_FMT, RCL] + CURSOR_BODIES, "original newline counts may only be read for the blank-line clamp and for emission")
+              [OLF + "InternalOptimisingLineFormatter::reconstruct_solution", ZERO_FN, RCL] + CURSOR_BODIES, "original newline counts may only be read for the blank-line clamp, line-start space removal (after the wrapper wrote them) and emission")
     sp = readers(prog, FD, "spaces_before")
     inventory(rep, R, "readers of FormattingData.spaces_before", sp,
               [OLF_FMT + "::{closure#0}", RCL, TS + "max_one_either_side::{closure#0}", TS + "max_one_either_side::{closure#1}"] + CURSOR_BODIES,
@@ -127,6 +128,39 @@ def check_c06(prog, rep, tier, cfg):
                           instance={"field": f, "store_blocks": len(st)})
 
 
+
+def zeroing_after_wrapping(prog, rep, R):
+    """Spaces before line-starting tokens are removed by one loop over all tokens, after the last wrapping pass."""
+    of = prog.body(OLF_FMT)
+    zf = prog.body(ZERO_FN)
+    if rep.check(of is not None and zf is not None, R, "anchor:OLF::format+zeroing", "OptimisingLineFormatter::format / remove_spaces_at_line_starts not found"):
+        from panic import dominating_conditions
+        st = [a for a in prog.field_accesses(FD, "spaces_before", within={zf.npath}) if a[3].startswith("write")]
+        ok = len(st) == 1
+        if ok:
+            b, bb, i, kind, s = st[0]
+            conds = dominating_conditions(zf, bb)
+            ok = s["rv"]["k"] == "use" and s["rv"]["op"].get("int") == 0
+            ok &= any(c[0] == "cmp" and c[1] == "Gt" and c[4] is True and "newlines_before" in canon(zf, c[2]) and c[3].get("int") == 0 for c in conds) and len([c for c in conds if c[0] in ("cmp", "call")]) == 1
+            loops = [(h, L) for h, L in zf.loops().items() if bb in L]
+            ok &= len(loops) == 1
+            if ok:
+                h, L = loops[0]
+                nx = [c for c in zf.calls() if c.bb in L and (c.callee or "").endswith("Iterator::next")]
+                ok &= len(nx) == 1 and "Range{0,len(arg1)}" in canon(zf, nx[0].args[0])
+                exits = [(x, s2) for x in L for s2 in zf.succ[x] if s2 not in L and zf.blocks[s2]["term"]["k"] != "unreachable"]
+                ok &= len(exits) == 1
+        rep.check(ok, R, "zeroing-loop", "remove_spaces_at_line_starts is no longer `for i in 0..len { if newlines_before > 0 { spaces_before = 0 } }` over every token",
+                  instance={"loop": "0..formatted_tokens.len()", "guard": "newlines_before > 0", "store": "spaces_before = 0"})
+        # every return of format() passes the zeroing, and no wrapping happens after it
+        zc = of.calls_to(ZERO_FN)
+        fls = of.calls_to(OLF + "InternalOptimisingLineFormatter::format_line")
+        every = bool(zc) and bfs_path(of, 0, set(of.return_blocks()), {c.bb for c in zc}) is None
+        after = [f for f in fls for c in zc if of.can_reach_avoiding(c.bb, {f.bb}, set())]
+        rep.check(every and not after and len(fls) == 2, R, "line-start-spaces-zeroed-after-all-wrapping",
+                  "OptimisingLineFormatter::format can return without removing line-start spaces, or wraps a line again after they were removed (a token continued by the second pass would lose its space and be glued to its neighbour)",
+                  where="%s:%d" % (of.file, of.line), instance={"zeroing_calls": len(zc), "every_return_passes_zeroing": every, "format_line_after_zeroing": len(after)})
+
 # =========================================================================== C08
 
 def check_c08(prog, rep, tier, cfg):
@@ -166,7 +200,7 @@ def check_c08(prog, rep, tier, cfg):
             o = Origins(cl).of_operand(c.args[0])
     # ---------------------------------------------------------------- C08.b value sets of the counters
     R = "C08.b"
-    allowed_sp_writers = ["<pasfmt_core::rules::eof_newline::EofNewline as pasfmt_core::traits::LogicalLineFormatter>::format", OLF_FMT,
+    allowed_sp_writers = ["<pasfmt_core::rules::eof_newline::EofNewline as pasfmt_core::traits::LogicalLineFormatter>::format", ZERO_FN,
                           "<pasfmt_core::rules::token_spacing::TokenSpacing as pasfmt_core::traits::LogicalLineFileFormatter>::format"]
     inventory(rep, R, "writers of spaces_before", writers(prog, FD, "spaces_before"), allowed_sp_writers, "spaces are decided by the spacing table, zeroed at line starts and at Eof")
     allowed_nl_writers = ["<pasfmt_core::rules::eof_newline::EofNewline as pasfmt_core::traits::LogicalLineFormatter>::format", OLF + "InternalOptimisingLineFormatter::reconstruct_solution"]
@@ -249,28 +283,10 @@ def check_c08(prog, rep, tier, cfg):
             rep.check(ok, R, "table-param:%s<-%s" % (short(k), short(c.body.npath)), "%s is called with a space count other than 0/1 from %s" % (short(k), short(c.body.npath)), where=c.where(),
                       instance={"fn": short(k), "caller": short(c.body.npath)})
     rep.floor(R, "Some(u16) results in the spacing table", nsome, 20)
-    # ---------------------------------------------------------------- C08.c line-start space zeroing after wrapping
+    # ---------------------------------------------------------------- C08.c line-start space zeroing after *all* wrapping
+    zeroing_after_wrapping(prog, rep, "C08.c")
     R = "C08.c"
     of = prog.body(OLF_FMT)
-    if rep.check(of is not None, R, "anchor:OLF::format", "OptimisingLineFormatter::format not found"):
-        st = [a for a in prog.field_accesses(FD, "spaces_before", within={of.npath}) if a[3].startswith("write")]
-        ok = len(st) == 1
-        if ok:
-            b, bb, i, kind, s = st[0]
-            from panic import dominating_conditions
-            conds = dominating_conditions(of, bb)
-            ok = s["rv"]["k"] == "use" and s["rv"]["op"].get("int") == 0
-            ok &= any(c[0] == "cmp" and c[1] == "Gt" and c[4] is True and "newlines_before" in canon(of, c[2]) and c[3].get("int") == 0 for c in conds)
-            loops = [(h, L) for h, L in of.loops().items() if bb in L]
-            ok &= bool(loops)
-            if ok:
-                h, L = min(loops, key=lambda x: len(x[1]))
-                nx = [c for c in of.calls() if c.bb in L and (c.callee or "").endswith("Iterator::next")]
-                ok &= len(nx) == 1 and "Range{0,len(" in canon(of, nx[0].args[0])
-                fls = of.calls_to(OLF + "InternalOptimisingLineFormatter::format_line")
-                ok &= len(fls) == 2 and any(of.can_reach_avoiding(f.bb, {bb}, set()) and not of.can_reach_avoiding(bb, {f.bb}, set()) for f in fls)
-        rep.check(ok, R, "line-start-spaces-zeroed-after-wrapping", "OptimisingLineFormatter::format no longer zeroes spaces_before of every token with newlines_before > 0 after the first wrapping pass",
-                  instance={"loop": "0..formatted_tokens.len()", "guard": "newlines_before > 0", "store": "spaces_before = 0"})
     # the first token of the file never keeps leading spaces: unconditional `spaces_before = 0` for index 0
     tsf = prog.body("<pasfmt_core::rules::token_spacing::TokenSpacing as pasfmt_core::traits::LogicalLineFileFormatter>::format")
     if rep.check(tsf is not None, R, "anchor:TokenSpacing::format", "TokenSpacing::format not found"):
